@@ -55,6 +55,61 @@ theorem load_keeps_registry {reg0 reg : Registry} (hc : CreateNames reg0) (he : 
     Ext reg0 (dejsonerBM reg (jsonerBM b)).1 :=
   (dejsonDomains_resolvable hc b.domains reg he hr).2
 
+/-! ## loading as the tools do it: `Dejsoner` followed by `Init` -/
+
+/-- `Init` is idempotent (its own comment says so) -/
+theorem init_idempotent {α β : Type} (b : BMOf α β) : initBM (initBM b) = initBM b := by
+  unfold initBM
+  cases h : b.slinks <;> simp [h]
+
+/-- after `Init` (every tool calls it on every machine it creates or loads) `Shared_links` is never nil -/
+theorem init_not_nil {α β : Type} (b : BMOf α β) : (initBM b).slinks ≠ none := by
+  unfold initBM
+  cases h : b.slinks <;> simp [h]
+
+/-- `Init` never touches attachment lists that exist, whatever their number … -/
+theorem init_keeps {α β : Type} (b : BMOf α β) (l : List (List Int)) (h : b.slinks = some l) :
+    initBM b = b := by
+  unfold initBM; simp [h]
+
+/-- … and touches nothing but `Shared_links` -/
+theorem init_frame {α β : Type} (b : BMOf α β) : { initBM b with slinks := b.slinks } = b := by
+  cases b with
+  | mk rsize domains processors inputs outputs iin iout links sos slinks =>
+    cases slinks <;> rfl
+
+/-- a machine whose `Shared_links` is not the nil slice (every machine with a processor:
+    `Add_processor` appends a list) comes back unchanged from `Dejsoner` + `Init`: in particular
+    every processor/shared-object attachment, for any relation between the number of domains and
+    the number of processors -/
+theorem load_init_save {reg0 reg : Registry} (hc : CreateNames reg0) (he : Ext reg0 reg) (b : BM)
+    (hr : ∀ d ∈ b.domains, Resolvable reg0 d) (hv : ∀ so ∈ b.sos, so.Valid)
+    (hs : b.slinks ≠ none) :
+    (loadBM reg (jsonerBM b)).2 = b.clearTransient.lift := by
+  simp only [loadBM, load_save hc he b hr hv]
+  cases h : b.slinks with
+  | none => exact absurd h hs
+  | some l => exact init_keeps _ l (by simp [BMOf.lift, BMOf.clearTransient, h])
+
+/-- in general (nil `Shared_links` only occurs without processors) the attachments, read with
+    nil = no list, are preserved and `Init` changes nothing else -/
+theorem load_init_attachments {reg0 reg : Registry} (hc : CreateNames reg0) (he : Ext reg0 reg)
+    (b : BM) (hr : ∀ d ∈ b.domains, Resolvable reg0 d) (hv : ∀ so ∈ b.sos, so.Valid)
+    (hs : b.slinks = none → b.processors = []) :
+    attachments (loadBM reg (jsonerBM b)).2 = attachments b ∧
+    { (loadBM reg (jsonerBM b)).2 with slinks := b.slinks } = b.clearTransient.lift := by
+  simp only [loadBM, load_save hc he b hr hv]
+  constructor
+  · cases h : b.slinks with
+    | none =>
+      have hp := hs h
+      simp [attachments, initBM, BMOf.lift, BMOf.clearTransient, h, hp]
+    | some l =>
+      rw [init_keeps _ l (by simp [BMOf.lift, BMOf.clearTransient, h])]
+      simp [attachments, BMOf.lift, BMOf.clearTransient]
+  · have := init_frame (b.clearTransient.lift)
+    simpa [BMOf.lift, BMOf.clearTransient] using this
+
 /-! ## save ∘ load ∘ save = save -/
 
 theorem save_load_save_machine {reg0 reg : Registry} (hc : CreateNames reg0) (he : Ext reg0 reg)
@@ -346,7 +401,7 @@ def exBM : BM :=
   { rsize := 8, domains := [exMachine], processors := [0], inputs := 1, outputs := 1,
     iin := [⟨1, 0, 0⟩, ⟨2, 0, 0⟩], iout := [⟨0, 0, 0⟩, ⟨3, 0, 0⟩], links := [1, 0],
     sos := [.barrier 5, .vtextmem [⟨0, 1, 2, 3, 4⟩], .uart 115200 (-3), .lfsr8 200],
-    slinks := [[0, 1]] }
+    slinks := some [[0, 1]] }
 
 example : exReg.names.Nodup := by decide
 example : CreateNames exReg := std_createNames _ _
